@@ -94,6 +94,19 @@ impl ExportCommand {
                         variable.export();
                     }
                 }
+                // `export NAME` for a variable that does not exist yet declares it (unset) with
+                // the export attribute, so that a later `NAME=value` reaches child processes.
+                else if !self.unexport && brush_core::env::valid_variable_name(s) {
+                    let mut variable = variables::ShellVariable::new(
+                        variables::ShellValue::Unset(variables::ShellValueUnsetType::Untyped),
+                    );
+                    variable.export();
+                    context.shell.env_mut().add(
+                        s.as_str(),
+                        variable,
+                        brush_core::env::EnvironmentScope::Global,
+                    )?;
+                }
             }
             brush_core::CommandArg::Assignment(assignment) => {
                 let name = match &assignment.name {
